@@ -22,7 +22,8 @@ WAVES = {"2": (("mut", "r2", "Mutation", "mut", 3, 2), ("ref", "nt", "Refactorin
          "6": (("mut", "r6", "Mutation", "mut", 15, 6), ("ref", "n6", "Refactoring", "ref", 12, 6)),
          "7": (("mut", "r7", "Mutation", "mut", 18, 7), ("ref", "n7", "Refactoring", "ref", 15, 7)),
          "8": (("mut", "r8", "Mutation", "mut", 21, 8), ("ref", "n8", "Refactoring", "ref", 18, 8)),
-         "9": (("mut", "r9", "Mutation", "mut", 24, 9), ("ref", "n9", "Refactoring", "ref", 21, 9))}
+         "9": (("mut", "r9", "Mutation", "mut", 24, 9), ("ref", "n9", "Refactoring", "ref", 21, 9)),
+         "10": (("mut", "ra", "Mutation", "mut", 27, 10), ("ref", "na", "Refactoring", "ref", 24, 10))}
 wave = sys.argv[1] if len(sys.argv) > 1 else "2"
 for kind, prefix, word, fname, offset, rnd in WAVES[wave]:
     for P in [f"C{i:02d}" for i in range(1, 21)]:
